@@ -41,6 +41,8 @@ class Impl:
                 self.assocs.append(a)
             elif k == 'remove_association':
                 m.remove_association(self.assocs[op['l']])
+            elif k == 'set_assoc_extras':
+                self.assocs[op['l']].extras = json.loads(op['extras'])
             elif k == 'add_attacker':
                 t = AttackerAttachment(name=op['name']) if op['name'] is not None else AttackerAttachment()
                 m.add_attacker(t, attacker_id=op['id'])
@@ -230,6 +232,8 @@ class Gen:
                 if self.predict_assoc_ok(assoc, cls, left, right):
                     l = self.nl; self.nl += 1
                     self.live_l.append(l); self.links[l] = (cls, list(left), list(right))
+            elif k == 'set_assoc_extras' and self.live_l:
+                self.ops.append({'k': 'set_assoc_extras', 'l': r.choice(self.live_l), 'extras': jtxt({'note': 'n' + str(r.randint(0, 9)), 'w': [1, 2]})})
             elif k == 'remove_association' and (self.live_l or self.dead_l):
                 pool = self.live_l if (self.live_l and r.random() < 0.85) or not self.usable_dead_links() else self.usable_dead_links()
                 if not pool: continue
@@ -251,8 +255,15 @@ class Gen:
             elif k == 'add_attacker':
                 name = r.choice([None, '', 'att', f'att{self.nt}'])
                 aid = r.choice([None, None, 0, self.next + 1, r.randint(0, 9)]) if self.explicit_attacker_ids else None
-                self.ops.append({'k': 'add_attacker', 'name': name, 'id': aid})
                 eff = aid if aid is not None else self.next
+                # AttackerAttachment is a dataclass compared by value: two attackers with equal id, name and entry points are
+                # indistinguishable for list.remove; keep (id, name) pairs of live attackers distinct
+                self.att_keys = getattr(self, 'att_keys', {})
+                shown = name if name else f'Attacker:{eff}'
+                if (eff, shown) in {self.att_keys[t] for t in self.live_t}:
+                    name = f'att{self.nt}x'; shown = name
+                self.att_keys[self.nt] = (eff, shown)
+                self.ops.append({'k': 'add_attacker', 'name': name, 'id': aid})
                 self.next = max(eff + 1, self.next); self.used_ids.add(eff)
                 self.live_t.append(self.nt); self.nt += 1
             elif k == 'remove_attacker' and self.live_t:
@@ -261,7 +272,7 @@ class Gen:
             elif k in ('add_entry_point', 'remove_entry_point') and self.live_t and self.live_a:
                 a = r.choice(self.live_a)
                 steps = self.steps_of(self.type[a]) or ['s0']
-                self.ops.append({'k': k, 't': r.choice(self.live_t + self.dead_t[:1]), 'a': a, 'step': r.choice(steps[:3])})
+                self.ops.append({'k': k, 't': r.choice(self.live_t), 'a': a, 'step': r.choice(steps[:3])})   # (AttackerAttachment compares by value: a removed attacker can be indistinguishable from a live twin)
             elif k == 'lookup':
                 self.ops.append(self.lookup_op())
         self.ops.append(self.lookup_op())
